@@ -3,8 +3,9 @@ wildcard language (C17).  Independent of ``reuse``.
 
 REUSE.toml: ``*`` = any run of non-'/' characters, ``**`` = any run of
 characters, ``\\x`` = literal x, anything else literal.  Two readings:
-*narrow* (exactly that) and *wide* (``**/`` may also match zero directories —
-established usage: ``**/*.py`` matches ``foo.py``).  UNSPECIFIED: a trailing
+*narrow* (exactly that) and *wide* (``**/`` that is a whole path component — at
+the start of the glob or after a ``/`` — may also match zero directories;
+established usage: ``**/*.py`` matches ``foo.py``; ``a**/b`` does not match ``ab``).  UNSPECIFIED: a trailing
 lone backslash, runs of three or more asterisks.
 """
 
@@ -57,7 +58,7 @@ def to_regex(toks, wide: bool) -> str:
         elif kind == STAR:
             out.append("[^/]*")
         else:
-            if wide and i + 1 < len(toks) and toks[i + 1] == (LIT, "/"):
+            if wide and i + 1 < len(toks) and toks[i + 1] == (LIT, "/") and (i == 0 or toks[i - 1] == (LIT, "/")):
                 out.append("(?:.*/)?")
                 i += 1
             else:
@@ -95,7 +96,7 @@ def match_tokens(toks, path: str, wide: bool) -> bool:
                 else:
                     return False
         # GLOBSTAR
-        if wide and ti + 1 < len(toks) and toks[ti + 1] == (LIT, "/"):
+        if wide and ti + 1 < len(toks) and toks[ti + 1] == (LIT, "/") and (ti == 0 or toks[ti - 1] == (LIT, "/")):
             if rec(ti + 2, pi):
                 return True
         for k in range(pi, len(path) + 1):
@@ -168,6 +169,7 @@ def _selftest() -> None:
     assert m("**/*.py", "src/foo.py") and m("**/*.py", "src/foo.py", wide=True)
     assert not m("**/a", "xa", wide=True) and m("**/a", "x/a", wide=True) and m("**/a", "a", wide=True)
     assert m("a/**/b", "a/b", wide=True) and not m("a/**/b", "a/b") and m("a/**/b", "a/x/y/b")
+    assert not m("a**/b", "ab", wide=True) and m("a**/b", "a/b", wide=True) and m("a**/b", "ax/y/b")
     assert tokenize("a\\")[1] is False and tokenize("***")[1] is False
     f, ok = dep5_regex("a?.t*")
     assert ok and f("ab.txt") and f("a/.t/x") and not f("a.t")
